@@ -50,7 +50,7 @@ LEAVES = {
     "int": (int, [(1, 1), (-2, -2)], "zz"),
     "float": (float, [(1.5, 1.5), (-0.25, -0.25)], "zz"),
     "bool": (bool, [(True, True), (False, False)], None),
-    "bytes": (bytes, [("aGk=", b"hi"), ("", b"")], None),
+    "bytes": (bytes, [("aGk=", b"hi"), ("", b""), ("+/+/++8=", b"\xfb\xff\xbf\xfb\xef")], None),
     "datetime": (datetime.datetime, [("2020-01-02T03:04:05+00:00", datetime.datetime(2020, 1, 2, 3, 4, 5, tzinfo=UTC)),
                                      ("2021-06-07T08:09:10+02:00", datetime.datetime(2021, 6, 7, 8, 9, 10, tzinfo=datetime.timezone(datetime.timedelta(hours=2)))),
                                      ("2020-01-02T03:04:05.123456+00:00", datetime.datetime(2020, 1, 2, 3, 4, 5, 123456, tzinfo=UTC))], "not-a-date"),
@@ -60,7 +60,7 @@ LEAVES = {
                          ("00000000-0000-0000-0000-000000000000", uuid.UUID(int=0))], "not-a-uuid"),
     "time": (datetime.time, [("03:04:05", datetime.time(3, 4, 5)), ("23:59:59.500000", datetime.time(23, 59, 59, 500000))], "25:99"),
 }
-KEYMAPS = ["none", "renamed", "keyword", "casefold"]
+KEYMAPS = ["none", "renamed", "keyword", "casefold", "plain-underscore"]
 
 
 def trees(depth):
@@ -145,15 +145,19 @@ WIRE = {
     "renamed": lambda i: ["fieldOne", "field-two", "Field Three"][i % 3],
     "keyword": lambda i: ["class", "id", "from"][i % 3],
     "casefold": lambda i: ["userName", "username", "USERNAME"][i % 3],
+    # NO key map at all, field names that look like sanitised keywords: the wire key is the field name, underscore included
+    "plain-underscore": lambda i: ["id_", "type_", "class_"][i % 3],
 }
+FIELD_NAMES = {"plain-underscore": lambda i: ["id_", "type_", "class_"][i % 3]}
 _DC_COUNT = [0]
 
 
 def make_dc(field_types, keymap):
     _DC_COUNT[0] += 1
-    names = [f"f{i}" for i in range(len(field_types))]
+    names = [FIELD_NAMES.get(keymap, lambda i: f"f{i}")(i) for i in range(len(field_types))]
     cls = dataclasses.make_dataclass(f"Dyn{_DC_COUNT[0]}", [(n, t) for n, t in zip(names, field_types)])
-    if keymap != "none":
+    cls.__verif_names__ = names
+    if keymap not in ("none", "plain-underscore"):
         load = {WIRE[keymap](i): n for i, n in enumerate(names)}
         meta = type("Meta", (), {"key_transform_with_load": load, "key_transform_with_dump": {v: k for k, v in load.items()}})
         cls.Meta = meta
@@ -184,7 +188,7 @@ def realise(t, keymap):
         parts = [realise(x, keymap) for x in t[1]]
         cls = make_dc([p[0] for p in parts], keymap)
         wire = cls.__verif_wire__
-        names = [f"f{i}" for i in range(len(parts))]
+        names = cls.__verif_names__
         menu = []
         width = max(len(p[1]) for p in parts)
         for k in range(min(width, 3)):
